@@ -52,11 +52,16 @@ enum { S_NONE, S_XDATA, S_XFUNC, S_IMPORT, S_FWDDEF };
 static const int h_shape[3][2] = {H_SHAPES};
 
 /* ---------------- static state ---------------- */
+/* CBMC 6.11 union pitfall (see HARNESS-GUIDE / C14): `item->u.data->...` (union member that is not the first) is only resolved
+   exactly when the item lives in an array of more than 64 elements (not split into fields).  Whole-array objects are expensive
+   to assign (profile: value-set update of all 65 elements per store), so ONLY the data items live in such an array; import /
+   export / forward items (one-level reads of u.*_id) and function items (u.func is the first member) are small objects. */
 #ifndef H_ARR
 #define H_ARR 65
-#endif /* > 64 elements: CBMC 6.11 union pitfall (see HARNESS-GUIDE / C14) */
-static struct MIR_item h_items0[H_ARR], h_items1[H_ARR], h_items2[H_ARR];
+#endif
+static struct MIR_item h_items0[4], h_items1[4], h_items2[4];
 static struct MIR_item *const h_items[3] = {h_items0, h_items1, h_items2};
+static struct MIR_item h_ditems[H_ARR]; /* data item of name n in module k: h_ditems[2 * k + n] */
 static struct MIR_module h_mod[3];
 static struct MIR_data h_data[3][2];
 static struct MIR_func h_func[3][2];
@@ -112,7 +117,7 @@ static void h_setup_ctx (void) {
 }
 
 static MIR_item_t h_new_item (int k, int slot, MIR_item_type_t t) {
-  MIR_item_t it = &h_items[k][slot];
+  MIR_item_t it = t == MIR_data_item ? &h_ditems[2 * k + slot / 2] : &h_items[k][slot];
   it->data = NULL; it->module = &h_mod[k]; it->item_type = t; it->ref_def = NULL; it->addr = NULL;
   it->export_p = FALSE; it->section_head_p = FALSE;
   return it;
